@@ -64,7 +64,7 @@ T_Att ==
     /\ UNCHANGED <<path, op, pc, cur, exp, rem, ntrav, nxt, part, rootPath, retries, res>> /\ Keep
 \* silent model steps
 Silent ==
-    /\ (E_Start \/ E_Classify \/ E_Done)
+    /\ (E_Start \/ E_Classify \/ E_Budget \/ E_Done)
     /\ UNCHANGED <<fs, tree, path, op, backend, natk, nsteps, everIn, l, acc>>
 T_Open ==
     /\ l <= Len(Rec) /\ E.ev = "sys" /\ E.nr = "openat" /\ pc = "open" /\ Consume
@@ -78,7 +78,7 @@ T_Stat ==
     /\ UNCHANGED <<fs, path, op, everIn>> /\ Keep
 \* may_follow_link(dir, link): fstat of the directory and of the link (trailing links only)
 T_MayFollow ==
-    /\ l <= Len(Rec) /\ E.ev = "sys" /\ E.nr = "fstat" /\ pc = "readlink" /\ E.d1 \in {cur, nxt} /\ rem = <<>> /\ Consume
+    /\ l <= Len(Rec) /\ E.ev = "sys" /\ E.nr = "fstat" /\ pc = "mayfollow" /\ E.d1 \in {cur, nxt} /\ rem = <<>> /\ Consume
     /\ UNCHANGED <<fs, path, op, pc, cur, exp, rem, ntrav, nxt, part, rootPath, retries, res, everIn>> /\ Keep
 T_Readlink ==
     /\ l <= Len(Rec) /\ E.ev = "sys" /\ E.nr = "readlink" /\ pc = "readlink" /\ E.d1 = nxt /\ E.body = fs.body[nxt] /\ Consume
